@@ -449,7 +449,7 @@ func (u *Unit) assumeTyping(st *State, v Val) {
 		switch l.Role {
 		case "slice.b":
 			b, o, ln, c := v.Terms[i], v.Terms[i+1], v.Terms[i+2], v.Terms[i+3]
-			st.assume(fmt.Sprintf("(and (<= 0 %s) (<= %s %s) (<= 0 %s) (<= 0 %s) (<= %s %s) (=> (= %s 0) (= %s 0)))", b, b, st.alloc, o, ln, ln, c, b, c))
+			st.assume(fmt.Sprintf("(and (<= 0 %s) (<= %s %s) (<= 0 %s) (<= 0 %s) (<= %s %s) (<= %s 1099511627776) (=> (= %s 0) (= %s 0)))", b, b, st.alloc, o, ln, ln, c, c, b, c))
 		case "iface.t":
 			st.assume(fmt.Sprintf("(and (<= 0 %s) (=> (= %s 0) (= %s 0)))", t, t, v.Terms[i+1]))
 			if impls := u.eng.sealedImpls(l.T); impls != nil {
